@@ -149,6 +149,28 @@ type keyNamer struct {
 
 var curKeys *keyNamer
 
+// long Coq terms that occur several times in a scenario are defined once (content-addressed)
+type defTable struct {
+	si    int
+	names map[string]string
+	defs  []string
+}
+
+var curDefs *defTable
+
+func defOnce(typ, body string) string {
+	if curDefs == nil || len(body) < 200 {
+		return body
+	}
+	if n, ok := curDefs.names[typ+"|"+body]; ok {
+		return n
+	}
+	n := fmt.Sprintf("d%d_%d", curDefs.si, len(curDefs.names))
+	curDefs.names[typ+"|"+body] = n
+	curDefs.defs = append(curDefs.defs, fmt.Sprintf("Definition %s : %s := %s.\n", n, typ, body))
+	return n
+}
+
 func coqKey(k string) string {
 	if curKeys == nil {
 		return coqBxS(k)
@@ -354,31 +376,99 @@ type caseRef struct {
 	Got      string   `json:"got,omitempty"`
 	Doc      string   `json:"doc,omitempty"`
 	Note     []string `json:"note,omitempty"`
+	Plan     []blockPlan `json:"block_plan,omitempty"` // reader-reuse scenarios: events / timestamp width / HighTs-LowTs / HighTs per block
+}
+
+// the ops of a scenario as recorded in a replay: bulk requests of more than 40 documents keep the first
+// and the last three (the scenario is regenerated from tier+seed; reader-reuse scenarios also carry their block plan)
+func replayOps(sc *Scenario) []Op {
+	if len(sc.Events) <= 2000 {
+		return sc.Ops
+	}
+	out := make([]Op, len(sc.Ops))
+	for i, op := range sc.Ops {
+		out[i] = op
+		if len(op.Docs) > 40 {
+			d := append([]string{}, op.Docs[:3]...)
+			d = append(d, fmt.Sprintf("... %d more documents of the same shape ...", len(op.Docs)-6))
+			out[i].Docs = append(d, op.Docs[len(op.Docs)-3:]...)
+		}
+	}
+	return out
+}
+
+func keyText(sc *Scenario, k string) string {
+	if sc.IdKey != "" {
+		return sc.IdKey + "=" + k
+	}
+	return "timestamp " + strings.TrimPrefix(k, "u:")
+}
+
+// reader-reuse scenarios: which block the event is in and what the other blocks of the segment look like
+func planText(sc *Scenario, e Event) string {
+	if len(sc.Plan) == 0 {
+		return ""
+	}
+	var id int64 = -1
+	for _, f := range e.Fields {
+		if f.Key == sc.IdKey {
+			id = f.V.I
+		}
+	}
+	var parts []string
+	at, lo := -1, int64(0)
+	for b, bp := range sc.Plan {
+		if id >= lo && id < lo+int64(bp.N) {
+			at = b
+		}
+		lo += int64(bp.N)
+		parts = append(parts, fmt.Sprintf("block %d: %d events, %d-byte timestamp deltas (%d bytes)", b, bp.N, bp.Width, 10+bp.N*bp.Width))
+	}
+	return fmt.Sprintf(" [event of block %d; one segment, blocks of very different sizes searched by the same block worker(s): %s]", at, strings.Join(parts, "; "))
 }
 
 // evaluates one query result against the events that were sent and flushed
 func oracle(sum *vhlib.Summary, sc *Scenario, qi int, op Op, recs []map[string]string, expected []Event, nonNumStrCol map[string]bool) int {
 	fails := 0
 	fail := func(class, detail string, c caseRef) {
-		c.Scenario, c.Stream, c.Card, c.Ops, c.Query = sc.Name, sc.Stream, sc.Card, sc.Ops, qi
+		c.Scenario, c.Stream, c.Card, c.Ops, c.Query = sc.Name, sc.Stream, sc.Card, replayOps(sc), qi
+		c.Plan = sc.Plan
 		sum.Fail(class, detail, c)
 		fails++
 	}
-	byTs := map[uint64][]map[string]string{}
-	for _, r := range recs {
+	// identity of an event: its (scenario-unique) timestamp, or the scenario's id field
+	recKey := func(r map[string]string) (string, bool) {
+		if sc.IdKey != "" {
+			v, ok := r[sc.IdKey]
+			return v, ok && strings.HasPrefix(v, "i:")
+		}
 		t, ok := r["timestamp"]
-		if !ok || !strings.HasPrefix(t, "u:") {
-			fail("event_invented", fmt.Sprintf("record without a timestamp: %v", r), caseRef{Got: fmt.Sprint(r)})
+		return t, ok && strings.HasPrefix(t, "u:")
+	}
+	evKey := func(e Event) string {
+		if sc.IdKey != "" {
+			for _, f := range e.Fields {
+				if f.Key == sc.IdKey {
+					return f.V.canon()
+				}
+			}
+		}
+		return fmt.Sprintf("u:%d", e.Ts)
+	}
+	byTs := map[string][]map[string]string{}
+	for _, r := range recs {
+		k, ok := recKey(r)
+		if !ok {
+			fail("event_invented", fmt.Sprintf("record without a timestamp%s: %v", map[bool]string{true: " or id", false: ""}[sc.IdKey != ""], r), caseRef{Got: fmt.Sprint(r)})
 			continue
 		}
-		n, _ := strconv.ParseUint(t[2:], 10, 64)
-		byTs[n] = append(byTs[n], r)
+		byTs[k] = append(byTs[k], r)
 	}
-	sentTs := map[uint64]bool{}
+	sentTs := map[string]bool{}
 	// values sent per column (for the migrated/changed distinction)
 	colVals := map[string]map[string]bool{}
 	for _, e := range expected {
-		sentTs[e.Ts] = true
+		sentTs[evKey(e)] = true
 		for _, f := range e.Fields {
 			if colVals[f.Key] == nil {
 				colVals[f.Key] = map[string]bool{}
@@ -388,21 +478,25 @@ func oracle(sum *vhlib.Summary, sc *Scenario, qi int, op Op, recs []map[string]s
 	}
 	for t, rs := range byTs {
 		if !sentTs[t] {
-			fail("event_invented", fmt.Sprintf("a record with timestamp %d was returned but never sent: %v", t, rs[0]), caseRef{Ts: t, Got: fmt.Sprint(rs[0])})
+			fail("event_invented", fmt.Sprintf("a record with %s was returned but never sent: %v", keyText(sc, t), rs[0]), caseRef{Got: fmt.Sprint(rs[0])})
 		}
 	}
 	for _, e := range expected {
-		rs := byTs[e.Ts]
+		rs := byTs[evKey(e)]
 		if len(rs) == 0 && sc.Stream == "known:fieldless_first_block_breaks_flush" {
 			fail("fieldless_first_block_breaks_flush", fmt.Sprintf("event ts=%d %s was accepted and flushed but not returned (the segment's first block held only field-less events)", e.Ts, clip(e.Doc)), caseRef{Ts: e.Ts, Doc: clip(e.Doc)})
 			continue
 		}
 		if len(rs) == 0 {
-			fail("event_lost", fmt.Sprintf("event ts=%d %s was accepted and flushed but not returned", e.Ts, clip(e.Doc)), caseRef{Ts: e.Ts, Doc: clip(e.Doc)})
+			fail("event_lost", fmt.Sprintf("event ts=%d %s was accepted and flushed but not returned%s", e.Ts, clip(e.Doc), planText(sc, e)), caseRef{Ts: e.Ts, Doc: clip(e.Doc)})
 			continue
 		}
 		if len(rs) > 1 {
-			fail("event_duplicated", fmt.Sprintf("event ts=%d returned %d times", e.Ts, len(rs)), caseRef{Ts: e.Ts, Doc: clip(e.Doc)})
+			fail("event_duplicated", fmt.Sprintf("event ts=%d %s returned %d times", e.Ts, clip(e.Doc), len(rs)), caseRef{Ts: e.Ts, Doc: clip(e.Doc)})
+		}
+		if sc.IdKey != "" && rs[0]["timestamp"] != fmt.Sprintf("u:%d", e.Ts) {
+			fail("timestamp_changed", fmt.Sprintf("event %s was sent with timestamp %d and returned with %s%s", clip(e.Doc), e.Ts, rs[0]["timestamp"], planText(sc, e)),
+				caseRef{Ts: e.Ts, Key: "timestamp", Sent: fmt.Sprintf("u:%d", e.Ts), Got: rs[0]["timestamp"], Doc: clip(e.Doc)})
 		}
 		got := map[string]string{}
 		for k, v := range rs[0] {
@@ -502,7 +596,8 @@ func evalScenario(sum *vhlib.Summary, mu *sync.Mutex, si int, sc *Scenario, obs 
 	defer mu.Unlock()
 	var res scenResult
 	curKeys = &keyNamer{si: si, names: map[string]string{}}
-	defer func() { curKeys = nil }()
+	curDefs = &defTable{si: si, names: map[string]string{}}
+	defer func() { curKeys, curDefs = nil, nil }()
 	tabs := newTables()
 	nonNumStrCol := map[string]bool{}
 	for _, e := range sc.Events {
@@ -546,8 +641,14 @@ func evalScenario(sum *vhlib.Summary, mu *sync.Mutex, si int, sc *Scenario, obs 
 	var flushed []Event
 	var lastQuery []map[string]string
 	lastQueryOK := false
+	var segBlocks [][]Event  // events of the flushed blocks of the open segment, by block number
+	var segFlush []*FlushObs // their probe observations (nil: not a probe flush)
+	segKnown := true         // false after a restart: block numbering of the open segment not tracked
+	var reuseDefs []string
 	closeBlock := func() {
 		if len(pending) > 0 {
+			segBlocks = append(segBlocks, append([]Event{}, pending...))
+			segFlush = append(segFlush, nil)
 			evs := make([]string, len(pending))
 			for i, e := range pending {
 				evs[i] = coqEvent(e)
@@ -579,7 +680,13 @@ func evalScenario(sum *vhlib.Summary, mu *sync.Mutex, si int, sc *Scenario, obs 
 					sum.HarnessError(fmt.Sprintf("scenario %s: probe flush returned %d blocks", sc.Name, len(o.Flushes)))
 					probeOK = false
 				}
+				if hadPending && len(o.Flushes) == 1 && len(segFlush) > 0 {
+					segFlush[len(segFlush)-1] = &o.Flushes[0]
+				}
 				for _, f := range o.Flushes {
+					if sc.Plan != nil && len(sc.Events) > 700 {
+						break // reader-reuse scenarios with large blocks: only the reread comparison goes to Coq
+					}
 					blockObs = append(blockObs, "("+coqBlockObs(f)+")")
 					sum.Count(fmt.Sprintf("block/ts_type_%s", f.TsBlock[2:4]))
 					for _, c := range f.Cols {
@@ -613,12 +720,31 @@ func evalScenario(sum *vhlib.Summary, mu *sync.Mutex, si int, sc *Scenario, obs 
 					}
 				}
 			}
+		case "reread":
+			if o.Err != "" {
+				sum.HarnessError(fmt.Sprintf("scenario %s: reread failed: %s", sc.Name, o.Err))
+				continue
+			}
+			if !segKnown {
+				continue
+			}
+			for ri, rr := range o.Rereads {
+				res.fails += rereadOracle(sum, sc, i, rr, segBlocks, segFlush)
+				if d, n := coqReread(si, len(reuseDefs), rr, segFlush); d != "" {
+					reuseDefs = append(reuseDefs, d)
+					res.ncoq += n
+				}
+				sum.Eval(fmt.Sprintf("%s/reread%d/%v", sc.Name, ri, rr.Order), len(rr.Order) > 1)
+				sum.Count("reread/one_reader_set_over_all_blocks")
+			}
 		case "rotate":
 			closeBlock()
+			segBlocks, segFlush, segKnown = nil, nil, true
 			sops = append(sops, "SRotate")
 			sum.Count("op/rotate")
 		case "restart":
 			closeBlock()
+			segBlocks, segFlush, segKnown = nil, nil, false
 			sops = append(sops, "SRestart")
 			sum.Count("op/restart")
 		case "query":
@@ -665,9 +791,18 @@ func evalScenario(sum *vhlib.Summary, mu *sync.Mutex, si int, sc *Scenario, obs 
 	if card == 0 {
 		card = 501
 	}
-	fmt.Fprintf(&sb, "Definition ops%d : list sop := %s.\n", si, vhlib.CoqListNL(sops))
 	var parts []string
-	if sc.Probe && probeOK {
+	if !(sc.Plan != nil && len(sc.Events) > 700) {
+		fmt.Fprintf(&sb, "Definition ops%d : list sop := %s.\n", si, vhlib.CoqListNL(sops))
+	}
+	for _, d := range curDefs.defs {
+		sb.WriteString(d)
+	}
+	for k, d := range reuseDefs {
+		sb.WriteString(d)
+		parts = append(parts, fmt.Sprintf("map (fun c => 6000 + 300 * %d + N.of_nat c) reuse%d_%d", k, si, k))
+	}
+	if sc.Probe && probeOK && len(blockObs) > 0 {
 		fmt.Fprintf(&sb, "Definition obs%d : list blockobs := %s.\n", si, vhlib.CoqListNL(blockObs))
 		parts = append(parts, fmt.Sprintf("map N.of_nat (check_scenario %s %d ops%d obs%d)", fc, card, si, si))
 		res.ncoq += len(blockObs)
@@ -703,6 +838,153 @@ func evalScenario(sum *vhlib.Summary, mu *sync.Mutex, si int, sc *Scenario, obs 
 	fmt.Fprintf(&sb, "Definition c%d : list N := map (fun c => %d * 10000 + c) (%s).\n", si, si, strings.Join(parts, " ++ "))
 	res.coq = strings.Join(curKeys.defs, "") + sb.String()
 	return res
+}
+
+// ---------- reread: one reader set over all blocks of the open segment ----------
+func blkText(rr RereadObs, k int) string {
+	b := rr.Blocks[k]
+	t := fmt.Sprintf("block %d (%d records, %d bytes of timestamps)", b.Blk, b.N, b.TsLen)
+	if k > 0 {
+		var prev []string
+		for _, p := range rr.Blocks[:k] {
+			prev = append(prev, fmt.Sprintf("block %d (%d records, %d bytes of timestamps)", p.Blk, p.N, p.TsLen))
+		}
+		t += " read by a reader that had read " + strings.Join(prev, ", then ") + " before"
+	} else {
+		t += " read first"
+	}
+	return t
+}
+
+// property oracle at the reader level: what one TimeRangeReader / SegmentFileReader returns for a block does
+// not depend on the blocks it read before: the timestamps are the ones sent with the block's events, in
+// order; the column records are the ones a fresh reader returns
+func rereadOracle(sum *vhlib.Summary, sc *Scenario, qi int, rr RereadObs, segBlocks [][]Event, segFlush []*FlushObs) int {
+	fails := 0
+	fail := func(class, detail string, c caseRef) {
+		c.Scenario, c.Stream, c.Card, c.Ops, c.Query, c.Plan = sc.Name, sc.Stream, sc.Card, replayOps(sc), qi, sc.Plan
+		c.Note = append(c.Note, fmt.Sprintf("reread order (block numbers of the open segment): %v", rr.Order))
+		sum.Fail(class, detail, c)
+		fails++
+	}
+	for k, b := range rr.Blocks {
+		if b.Blk >= len(segBlocks) {
+			continue
+		}
+		evs := segBlocks[b.Blk]
+		okTs := b.TsErr == "" && len(b.TsRead) == len(evs)
+		for j := 0; okTs && j < len(evs); j++ {
+			okTs = b.TsRead[j] == evs[j].Ts
+		}
+		if !okTs {
+			got := b.TsErr
+			if got == "" {
+				got = fmt.Sprintf("%d timestamps, first differing at record %d", len(b.TsRead), firstDiff(b.TsRead, evs))
+			}
+			fail("reused_time_reader_loses_block", fmt.Sprintf("TimeRangeReader.GetAllTimeStampsForBlock: %s: %s (sent: %d events, first %s)", blkText(rr, k), got, len(evs), clip(evs[0].Doc)),
+				caseRef{Ts: evs[0].Ts, Key: "timestamp", Got: got, Doc: clip(evs[0].Doc)})
+		}
+		if b.Blk < len(segFlush) && segFlush[b.Blk] != nil {
+			for _, c := range segFlush[b.Blk].Cols {
+				got, present := b.Cols[c.Name]
+				if c.Enc < 0 || !present {
+					continue
+				}
+				same := len(got) == len(c.Recs)
+				at := -1
+				for j := 0; same && j < len(got); j++ {
+					if got[j] != c.Recs[j] {
+						same, at = false, j
+					}
+				}
+				if !same {
+					g, w := fmt.Sprintf("%d records", len(got)), fmt.Sprintf("%d records", len(c.Recs))
+					if at >= 0 {
+						g, w = got[at], c.Recs[at]
+					}
+					fail("reused_column_reader_changes_records", fmt.Sprintf("SegmentFileReader of column %q: %s: record %d is %s, a fresh reader returns %s", c.Name, blkText(rr, k), at, clip(g), clip(w)),
+						caseRef{Key: c.Name, Got: clip(g), Sent: clip(w)})
+				}
+			}
+		}
+	}
+	return fails
+}
+
+func firstDiff(got []uint64, evs []Event) int {
+	for j := range evs {
+		if j >= len(got) || got[j] != evs[j].Ts {
+			return j
+		}
+	}
+	return len(evs)
+}
+
+// coqc parses a list literal recursively: more than ~10 000 elements overflow its stack; long lists are
+// written as a concatenation of literals of 4000 elements
+func coqLongList(items []string) string {
+	if len(items) <= 4000 {
+		return vhlib.CoqList(items)
+	}
+	var parts []string
+	for i := 0; i < len(items); i += 4000 {
+		j := i + 4000
+		if j > len(items) {
+			j = len(items)
+		}
+		parts = append(parts, vhlib.CoqList(items[i:j]))
+	}
+	return "(" + strings.Join(parts, " ++ ") + ")"
+}
+
+// Coq case of one reread: the model's stateful readers (ReaderReuse.v) on the real block bytes, in the same order
+func coqReread(si, k int, rr RereadObs, segFlush []*FlushObs) (string, int) {
+	var ts []string
+	cols := map[string][]string{}
+	var names []string
+	for _, b := range rr.Blocks {
+		if b.Blk >= len(segFlush) || segFlush[b.Blk] == nil {
+			return "", 0
+		}
+		f := segFlush[b.Blk]
+		obs := "None"
+		if b.TsErr == "" {
+			items := make([]string, len(b.TsRead))
+			for i, t := range b.TsRead {
+				items[i] = vhlib.CoqN(t)
+			}
+			obs = "(Some " + coqLongList(items) + ")"
+		}
+		ts = append(ts, fmt.Sprintf("(%d%%nat, %s, %s)", b.N, defOnce("bytes", hexBytes(f.TsBlock)), defOnce("option (list N)", obs)))
+		for _, c := range f.Cols {
+			got, present := b.Cols[c.Name]
+			if c.Enc < 0 || !present {
+				continue
+			}
+			// very large blocks: the walk of the model's raw reader is quadratic in Coq (it measures the rest of
+			// the buffer at every record).  A raw block does not touch the reader state of the model and is left
+			// out; a dictionary block stays in the sequence (it rewrites the table) without record comparison
+			large := b.N > 2000
+			if large && c.Enc == 0 {
+				continue
+			}
+			pl, _ := hex.DecodeString(c.Payload)
+			recs, cmp := "None", "false"
+			if !large {
+				recs, _ = coqRecs(got, pl)
+				cmp = "true"
+			}
+			if _, ok := cols[c.Name]; !ok {
+				names = append(names, c.Name)
+			}
+			cols[c.Name] = append(cols[c.Name], fmt.Sprintf("(%d%%nat, %d, %s, %s, %s)", b.N, c.Enc, defOnce("bytes", hexBytes(c.Payload)), defOnce("option (list (N * N))", recs), cmp))
+		}
+	}
+	var cl []string
+	for _, n := range names {
+		cl = append(cl, vhlib.CoqListNL(cols[n]))
+	}
+	return fmt.Sprintf("Definition reuse%d_%d : list nat := check_reuse %s %s.\n", si, k, vhlib.CoqListNL(ts), vhlib.CoqListNL(cl)), len(rr.Blocks)
 }
 
 // the last query of a scenario sees every event (all blocks are flushed before it)
@@ -1042,6 +1324,18 @@ func main() {
 		scs = append(scs, genMain(r.Fork(), fmt.Sprintf("big%d", i), false, true))
 	}
 	scs = append(scs, genSpecial(r.Fork(), cfg.Thorough())...)
+	// reader-reuse scenarios: blocks of very different sizes in one segment, one or two block workers
+	nReuse, bigs := 4, []int{8, 8}
+	if cfg.Thorough() {
+		nReuse, bigs = 60, []int{8, 8, 8, 4, 4, 2, 8, 4}
+	}
+	rr := vhlib.NewRng(cfg.Seed ^ 0xC01EC01EC01E5EED) // its own stream: the older streams keep their seeds
+	for i := 0; i < nReuse; i++ {
+		scs = append(scs, genReuse(rr.Fork(), fmt.Sprintf("reuse%d", i), 0, 1+i%2))
+	}
+	for i, w := range bigs {
+		scs = append(scs, genReuse(rr.Fork(), fmt.Sprintf("reuse_big%d", i), w, 1+(i%4)/3))
+	}
 	kr := r.Fork()
 	scs = append(scs, genKnown(kr)...)
 
